@@ -748,21 +748,33 @@ func (t *twin) close() {
 	if t.srv != nil {
 		t.srv.Close()
 	}
-	if t.a != nil {
-		t.a.Close()
+	// the two storages are independent: close them side by side (opening and closing
+	// a storage dominates the cost of a short case on a loaded machine)
+	var wg sync.WaitGroup
+	for _, in := range []*stacks.Instance{t.a, t.b} {
+		if in != nil {
+			wg.Add(1)
+			go func(in *stacks.Instance) { defer wg.Done(); in.Close() }(in)
+		}
 	}
-	if t.b != nil {
-		t.b.Close()
-	}
+	wg.Wait()
 }
 
 func openTwin(dir, stack string) (*twin, error) {
 	t := &twin{}
-	var err error
-	if t.a, err = stacks.Open(dir+"/a", stacks.LayoutFor(stack), stacks.Options{GCGrace: time.Hour}); err != nil {
-		return nil, err
+	var err, errB error
+	var wg sync.WaitGroup
+	wg.Add(1)
+	go func() {
+		defer wg.Done()
+		t.b, errB = stacks.Open(dir+"/b", stacks.LayoutFor(stack), stacks.Options{GCGrace: time.Hour})
+	}()
+	t.a, err = stacks.Open(dir+"/a", stacks.LayoutFor(stack), stacks.Options{GCGrace: time.Hour})
+	wg.Wait()
+	if err == nil {
+		err = errB
 	}
-	if t.b, err = stacks.Open(dir+"/b", stacks.LayoutFor(stack), stacks.Options{GCGrace: time.Hour}); err != nil {
+	if err != nil {
 		t.close()
 		return nil, err
 	}
